@@ -51,7 +51,7 @@ def act(op, md=None, size=0, code=0, msg=None, det=0):
 def base(proto, shape, codec="proto", **kw):
     c = dict(proto=proto, shape=shape, codec=codec, comp="", opts=[], sizes=[3] if shape in ("unary", "sstream") else [3, 0],
              script=[], reqmd={}, reqwant={}, maxrecv=0, maxsend=0, sched=[], eofwith=False, trunc=0, trunck=0, timeout="",
-             accept="", tag="", binpad=False, exact=False, corrupt=False, boundary=0, wsclose=False)
+             accept="", tag="", binpad=False, exact=False, corrupt=False, boundary=0, wsclose=False, exactrep=False, reqct="")
     c.update(kw)
     return c
 
@@ -98,7 +98,18 @@ def fam_status(rnd, tier):
                             c["script"] = recv_all(c) + [act("send", size=2) for _ in range(after)] + [act("ret", code=code, msg=m, det=det)]
                             out.append(c)
     rnd.shuffle(out)
-    return out[: (6000 if tier == "quick" else 120000)]
+    out = out[: (6000 if tier == "quick" else 120000)]
+    # a failing call whose request named a content type no codec is registered for (no body to decode): the error reply
+    # still has to be produced, in the default codec
+    for code in codes:
+        if code == 0:
+            continue
+        for reqct in ["text/plain; charset=utf-8", "image/jpeg", "application/json; charset=utf-8", "application/x-www-form-urlencoded", "application/grpc"]:
+            for accept in ["", "*/*", "application/protobuf", "text/html"]:
+                c = base("http", "unary", codec="json", tag="status", reqct=reqct, accept=accept, sizes=[-1])
+                c["script"] = [act("ret", code=code, msg=rnd.choice([["plain"], ["u3", "pct"], []]), det=rnd.choice([0, 1]))]
+                out.append(c)
+    return out
 
 
 def fam_stream(rnd, tier):
@@ -171,6 +182,13 @@ def fam_limits(rnd, tier):
                                 c["replysize"] = size
                                 c["script"] = [act("send", size=max(size - 20, 0)), act("ret", code=0)]
                                 out.append(c)
+                    # replies of exact wire size around the send limit (a limit check that counts framing bytes refuses L-4..L)
+                    for size in [L - 6, L - 5, L - 4, L - 1, L, L + 1, L + 5]:
+                        for shape in ["unary", "sstream"]:
+                            c = base(proto, shape, codec=codec, comp=comp, maxsend=L, maxrecv=L * 4, tag="limits", exactrep=True)
+                            c["sizes"] = [0]
+                            c["script"] = [act("send", size=size)] + ([act("send", size=L)] if shape == "sstream" else []) + [act("ret", code=0)]
+                            out.append(c)
     # a message of many small records whose size limit falls exactly on a record boundary: an implementation that
     # cuts the (decompressed) message at the limit still decodes something
     for proto in ["http", "grpc", "grpcweb", "grpcwebtext"]:
@@ -182,7 +200,7 @@ def fam_limits(rnd, tier):
                     c["script"] = recv_all(c) + ([act("send", size=1)] if shape != "unary" else []) + [act("ret", code=0)]
                     out.append(c)
     rnd.shuffle(out)
-    return out[: (3000 if tier == "quick" else 40000)]
+    return out[: (4000 if tier == "quick" else 60000)]
 
 
 def fam_ws(rnd, tier, part):
@@ -461,7 +479,7 @@ def run(prop, tier, replay=None):
         for cid, formula, e in extra_failed:
             consider(cid, formula, e)
         ustat = collections.Counter()
-        if prop == "C06" and (not replay or replay_ups):
+        if prop in ("C06", "C08") and (not replay or replay_ups):
             # HttpBody chunk framing: uploads of every length around multiples of the chunk size, through Recv(),
             # from readers that end with (0, EOF), with (n, EOF), one byte at a time, and through gzip
             ups = []
@@ -486,7 +504,7 @@ def run(prop, tier, replay=None):
             ulines = open(utrace).read().splitlines()
             for f in pr["failed"]:
                 ev = json.loads(ulines[f[1] - 1])
-                if f[2] not in ("UploadComplete", "ChunkLimit"):
+                if f[2] not in (("UploadComplete", "ChunkLimit") if prop == "C06" else ("ChunkLimit",)):
                     continue
                 sig = dict(module="Framing", formula=f[2], codec="body", mode=ev["mode"], code=None)
                 kf = C.match_finding(findings, prop, sig)
